@@ -370,6 +370,10 @@ func (d *Def) getMethodNameAndSetIsStatic(
 				ctx.IsDefineStatic,
 			)
 
+		if objectT == nil {
+			return "", fmt.Errorf("'%s' is not defined", t.ToString())
+		}
+
 		if objectT.ID == "" {
 			objectT.ID = base.GenId()
 		}
